@@ -693,11 +693,11 @@ func cmdCheck(args []string) int {
 		for _, v := range r.viols {
 			key := v.Class
 			if k := matchKnown(v, known); k != nil {
-				key += "|" + k.ID
+				key = "known|" + k.ID
 			} else {
 				key += "|" + factsKey(v.Facts)
 			}
-			if doneKey[key] || len(doneKey) >= 12 {
+			if doneKey[key] || len(doneKey) >= 32 {
 				continue
 			}
 			doneKey[key] = true
